@@ -44,6 +44,8 @@ type Case struct {
 	Spec []string
 
 	impl, model, spec string
+	// notRun: skipped after too many silent cases (see silentCases)
+	notRun bool
 }
 
 func (c *Case) key() string { return c.Kind + "\t" + strings.Join(c.Fields, "\t") }
@@ -304,6 +306,9 @@ func whyClass(why string) string {
 
 // judge returns ("", "") when the case is fine, otherwise the class and an explanation
 func judge(c *Case) (string, string) {
+	if c.notRun {
+		return "", ""
+	}
 	impl := c.impl
 	for _, bad := range []string{"PANIC", "HANG", "CRASH", "LOOP", "NEWERR-WITH-TEMPLATE", "OUTPUT-WITH-ERROR", "MUTATED"} {
 		if strings.Contains(" "+impl, " "+bad) || strings.HasPrefix(impl, bad) {
@@ -398,6 +403,13 @@ var raceWorkerPath = "/verif/bin/harness-race"
 
 // confirmedHangs counts requests that stayed unanswered even with the long limit
 var confirmedHangs int64
+
+// silentCases counts every request that got no answer within its limit.  After hangs have been confirmed and sixty
+// requests stayed silent the verdict is settled (the silent cases are reported with their inputs); the remaining cases are
+// not run, so that a tree on which a whole class of inputs never returns is reported in minutes instead of hours.
+var silentCases int64
+
+const silentCasesLimit = 60
 
 // readRaceLog returns the head of the race detector's report, if any
 func readRaceLog(base string) string {
@@ -507,6 +519,11 @@ func runAll(cases []*Case) {
 			}()
 			for i := s; i < len(cases); i += nShards {
 				c := cases[i]
+				if atomic.LoadInt64(&confirmedHangs) >= 3 && atomic.LoadInt64(&silentCases) >= silentCasesLimit {
+					c.notRun = true
+					c.impl = "NOT-RUN after many silent cases"
+					continue
+				}
 				fields := c.Fields
 				if c.Kind == "hist" || c.Kind == "conc" || c.Kind == "loadconc" {
 					fields = append([]string{hx(cwd)}, c.Fields...)
@@ -560,6 +577,9 @@ func runAll(cases []*Case) {
 				}
 				c.impl = ans
 				if !ok {
+					if strings.HasPrefix(ans, "HANG") {
+						atomic.AddInt64(&silentCases, 1)
+					}
 					w.kill()
 					w = nil
 				}
